@@ -1,82 +1,83 @@
 import Verif.Lemmas.StdioOut
 
-/-! # C06 — stdio outbound framing: one message, one line, in order
+/-! # C06 — stdio outbound framing: one message, one line, in order, content preserved
 
-Model: `Verif.Model.StdioOut.writer` (type dispatch str / value / unserialisable, per-message
-`try … except: continue`, `aclose()` when the outgoing stream ends) over a local JSON value type
-with a compact and a stdlib-style encoder.  Every theorem is for every sequence of outbound items
-of any length, every JSON value (any nesting, strings over all code points), both serialiser
-styles (in fact every style whose separators contain no line break).
+Model: `Verif.Model.StdioOut` (type dispatch str / dict / typed envelope / unserialisable,
+per-message `try … except: continue`, `aclose()` when the outgoing stream ends, and the SECOND
+writer of the child's stdin: the reader task's batch-rejection lines).  JSON values, encoders and
+decoder are the shared ones of `Model/Json.lean` (C17); a typed envelope is an `Rpc.Msg`, its wire
+object `Rpc.emit m` (C02).  Every theorem is for every sequence of outbound items of any length,
+every JSON value (any nesting, strings over all Unicode scalar values, integers of any size), and
+EVERY encoder style `st` (separators with or without a space, raw UTF-8 or `ensure_ascii`: orjson /
+pydantic-core and stdlib `json` are two of the four).
 
-PARTIAL with respect to the property text in one respect, named here: "whose decoded value equals
-the message" would need a JSON decoder with `dec (enc v) = v` (that is C17's theorem); in this
-file the line of a value item IS `enc v` by definition of the model, and that the real serialisers
-(`model_dump_json(exclude_none=True)`, orjson, stdlib json) produce a text denoting the message's
-value is decided by the correspondence run, which decodes every line the real writer emitted.
+Guards (`Guarded`): a caller-supplied string is a single-line pre-serialised message (no raw LF/CR)
+— the property's own restriction; float tokens inside payloads are well-formed JSON numbers
+(`wf`, floats are opaque tokens as in C17).
+
+Outside the proof, sampled by the correspondence run: that `model_dump_json(exclude_none=True)` /
+`json.dumps` write `Json.enc st` of the value for some style `st` (Pydantic, orjson, stdlib json).
 -/
 set_option linter.unusedVariables false
 set_option linter.unusedSimpArgs false
 namespace Verif.Props.C06
 open Verif.Model.StdioIn Verif.Model.StdioOut Verif.Lemmas.StdioIn Verif.Lemmas.StdioOut
+open Verif.Model.Json Verif.Model.Rpc
+open Verif.Model.Carrier (codes chars)
 
-/-- a serialiser style whose separators contain no line break (compact and stdlib both) -/
-def GoodStyle (sty : Style) : Prop := NoBreak sty.itemSep ∧ NoBreak sty.kvSep
+/-- The JSON encoders never emit a raw LF or CR, for every value and every style (C17's encoder
+theorem, by mutual induction over values, arrays, objects). -/
+theorem c06_encoder_no_raw_break (st : Style) (v : Json) (h : wf v = true) : OneLine (enc st v) :=
+  Verif.Model.Json.enc_noBreak st v h
 
-theorem goodStyle_compact : GoodStyle Style.compact := compact_seps
-theorem goodStyle_std : GoodStyle Style.std := std_seps
-
-/-- The JSON encoder never emits a raw LF or CR, for every value: line breaks inside strings
-(and U+2028, NUL, quotes, … ) are escaped or harmless; by mutual induction over values, arrays,
-objects. -/
-theorem c06_encoder_no_raw_break (sty : Style) (h : GoodStyle sty) (v : Json) : NoBreak (enc sty v) :=
-  enc_noBreak sty h.1 h.2 v
-
-/-- **No raw line break inside a line**: every line written for a typed message / dict, and for a
+/-- **No raw line break inside a line**: every line written for a dict / typed message, and for a
 caller-supplied string under the guard that it is a single-line pre-serialised message. -/
-theorem c06_no_raw_break (sty : Style) (h : GoodStyle sty) (items : List Outbound)
-    (hg : ∀ it ∈ items, Guarded it) : ∀ l ∈ items.filterMap (ser sty), NoBreak l := by
+theorem c06_no_raw_break (st : Style) (items : List Outbound)
+    (hg : ∀ it ∈ items, Guarded it) : ∀ l ∈ items.filterMap (ser st), OneLine l := by
   intro l hl
   simp only [List.mem_filterMap] at hl
   obtain ⟨it, hit, hs⟩ := hl
+  have g := hg it hit
   cases it with
-  | value v => simp only [ser, Option.some.injEq] at hs; subst hs; exact c06_encoder_no_raw_break sty h v
-  | raw s => simp only [ser, Option.some.injEq] at hs; subst hs; exact hg _ hit
+  | value v => simp only [ser, Option.some.injEq] at hs; subst hs; exact c06_encoder_no_raw_break st v g
+  | typed m =>
+    simp only [ser, Option.some.injEq] at hs; subst hs
+    exact c06_encoder_no_raw_break st _ (Verif.Model.Rpc.wf_emit m g)
+  | raw s => simp only [ser, Option.some.injEq] at hs; subst hs; exact g
   | unserialisable => simp [ser] at hs
 
 /-- **One message, one line, in order.**  Splitting the bytes the child received at LF gives back
 exactly the UTF-8 encodings of the serialisable items' lines, in the order sent, and nothing is
 left over (the stream ends with the LF of the last line). -/
-theorem c06_one_line_each (sty : Style) (h : GoodStyle sty) (items : List Outbound)
-    (hg : ∀ it ∈ items, Guarded it) :
-    split LF (childBytes sty items) = ((items.filterMap (ser sty)).map encode, []) := by
+theorem c06_one_line_each (st : Style) (items : List Outbound) (hg : ∀ it ∈ items, Guarded it) :
+    split LF (childBytes st items) = ((items.filterMap (ser st)).map (fun l => encode (codes l)), []) := by
   unfold childBytes
   rw [sends_eq]
-  exact split_lines _ (fun l hl => (c06_no_raw_break sty h items hg l hl).1)
+  exact split_lines _ (fun l hl => (c06_no_raw_break st items hg l hl).1)
 
 /-- … and each accepted message is one `send()` of one LF-terminated line. -/
-theorem c06_one_send_each (sty : Style) (items : List Outbound) :
-    sends sty items = (items.filterMap (ser sty)).map (fun l => encode l ++ [LF]) := by
+theorem c06_one_send_each (st : Style) (items : List Outbound) :
+    sends st items = (items.filterMap (ser st)).map (fun l => encode (codes l) ++ [LF]) := by
   rw [sends_eq]
   congr 1
   funext l
   rw [encode_append, encode_lf]
 
 /-- the number of lines is the number of serialisable messages -/
-theorem c06_line_count (sty : Style) (h : GoodStyle sty) (items : List Outbound)
-    (hg : ∀ it ∈ items, Guarded it) :
-    (split LF (childBytes sty items)).1.length = (items.filterMap (ser sty)).length := by
-  rw [c06_one_line_each sty h items hg]; simp
+theorem c06_line_count (st : Style) (items : List Outbound) (hg : ∀ it ∈ items, Guarded it) :
+    (split LF (childBytes st items)).1.length = (items.filterMap (ser st)).length := by
+  rw [c06_one_line_each st items hg]; simp
 
-/-- **The bytes are UTF-8 and decode to the lines** (every code point a scalar value): the
-incremental decoder of the reader model recovers the texts with their terminators. -/
-theorem c06_utf8_roundtrip (sty : Style) (items : List Outbound)
-    (hs : ∀ l ∈ items.filterMap (ser sty), ∀ c ∈ l, isScalar c = true) :
-    decBytes [] (childBytes sty items) = .ok ((items.filterMap (ser sty)).flatMap (fun l => l ++ [LF]), []) := by
+/-- **The bytes are UTF-8 and decode to the lines**: the incremental decoder of the reader model
+recovers the texts with their terminators. -/
+theorem c06_utf8_roundtrip (st : Style) (items : List Outbound) :
+    decBytes [] (childBytes st items)
+      = .ok ((items.filterMap (ser st)).flatMap (fun l => codes l ++ [LF]), []) := by
   unfold childBytes
   rw [sends_eq]
-  have : ((items.filterMap (ser sty)).map (fun l => encode (l ++ [LF]))).flatten
-      = encode ((items.filterMap (ser sty)).flatMap (fun l => l ++ [LF])) := by
-    generalize items.filterMap (ser sty) = ls
+  have : ((items.filterMap (ser st)).map (fun l => encode (codes l ++ [LF]))).flatten
+      = encode ((items.filterMap (ser st)).flatMap (fun l => codes l ++ [LF])) := by
+    generalize items.filterMap (ser st) = ls
     induction ls with
     | nil => rfl
     | cons l ls ih =>
@@ -88,28 +89,103 @@ theorem c06_utf8_roundtrip (sty : Style) (items : List Outbound)
   simp only [List.mem_flatMap, List.mem_append, List.mem_singleton] at hc
   obtain ⟨l, hl, hc⟩ := hc
   rcases hc with hc | hc
-  · exact hs l hl c hc
+  · exact Verif.Lemmas.StdioCodec.validText_codes l c hc
   · subst hc; decide
+
+/-- **Content preserved — one message.**  The line the child receives for a plain dict decodes
+(UTF-8, then the RFC 8259 decoder `Json.dec`) to exactly the dict's value; the line for a typed
+envelope decodes to exactly `Rpc.emit m`: the message with absent optional members omitted
+(top-level `exclude_none`; nulls nested in `params` / `result` / `error` stay, C02) — for every
+encoder style, every value, integers of any size. -/
+theorem c06_decodes_to_message (st : Style) :
+    (∀ v : Json, wf v = true →
+      ∃ l, ser st (.value v) = some l ∧ dec l = some v ∧ decLine (encode (codes l)) = some v)
+    ∧ (∀ m : Msg, wfMsg m = true →
+      ∃ l, ser st (.typed m) = some l ∧ dec l = some (emit m) ∧ decLine (encode (codes l)) = some (emit m)) := by
+  constructor
+  · intro v h
+    have := Verif.Model.Json.dec_enc st v h
+    exact ⟨enc st v, rfl, this, by rw [decLine_codes, this]⟩
+  · intro m h
+    have := Verif.Model.Json.dec_enc st (emit m) (Verif.Model.Rpc.wf_emit m h)
+    exact ⟨enc st (emit m), rfl, this, by rw [decLine_codes, this]⟩
+
+/-- … and read back with the library's own parser the typed envelope is the message that was
+sent: same kind, id (value and JSON type), method, params, result, error (C02's wire round trip). -/
+theorem c06_typed_parses_back (st : Style) (m : Msg) (hb : Built m) (hw : wfMsg m = true) :
+    ∃ l, ser st (.typed m) = some l ∧ (decLine (encode (codes l))).map parseMsg = some (.ok (view m)) := by
+  refine ⟨enc st (emit m), rfl, ?_⟩
+  rw [decLine_codes]
+  exact Verif.Props.C02.c02_wire_roundtrip st m hb hw
+
+/-- per item: decoding the line of an accepted item gives what the item denotes -/
+theorem c06_item_decodes (st : Style) (it : Outbound) (g : Guarded it) :
+    (ser st it).map (fun l => decLine (encode (codes l))) = decoded it := by
+  cases it with
+  | value v => simp [ser, decoded, decLine_codes, Verif.Model.Json.dec_enc st v g]
+  | typed m =>
+    simp [ser, decoded, decLine_codes, Verif.Model.Json.dec_enc st (emit m) (Verif.Model.Rpc.wf_emit m g)]
+  | raw s => simp [ser, decoded, decLine_codes]
+  | unserialisable => simp [ser, decoded]
+
+/-- **Content preserved — the whole sequence.**  The child's byte stream, split at LF and decoded
+line by line, is the list of what the accepted items denote, in order: the value of every dict,
+`emit m` of every typed envelope, whatever a pre-serialised string denotes; nothing for an
+unserialisable item. -/
+theorem c06_stream_decodes (st : Style) (items : List Outbound) (hg : ∀ it ∈ items, Guarded it) :
+    (split LF (childBytes st items)).1.map decLine = items.filterMap decoded := by
+  rw [c06_one_line_each st items hg]
+  simp only [List.map_map]
+  induction items with
+  | nil => rfl
+  | cons it rest ih =>
+    have h1 := c06_item_decodes st it (hg it (by simp))
+    have ih' := ih (fun x hx => hg x (by simp [hx]))
+    simp only [List.filterMap_cons]
+    cases hs : ser st it with
+    | none => simp only [hs, Option.map_none] at h1 ⊢; rw [← h1]; exact ih'
+    | some l =>
+      simp only [hs, Option.map_some] at h1
+      rw [← h1]
+      simp only [List.map_cons, Function.comp_apply, ih']
+
+/-- … so for a sequence of dicts and typed envelopes (unserialisable objects anywhere between
+them) the decoded lines are exactly the messages' values, in order. -/
+theorem c06_stream_decodes_to_messages (st : Style) (items : List Outbound) (hg : ∀ it ∈ items, Guarded it)
+    (hnr : ∀ it ∈ items, ∀ s, it ≠ .raw s) :
+    (split LF (childBytes st items)).1.map decLine = (items.filterMap valueOf).map some := by
+  rw [c06_stream_decodes st items hg]
+  clear hg
+  induction items with
+  | nil => rfl
+  | cons it rest ih =>
+    have ih' := ih (fun x hx => hnr x (by simp [hx]))
+    have h0 := hnr it (by simp)
+    cases it with
+    | value v => simp [List.filterMap_cons, decoded, valueOf, ih']
+    | typed m => simp [List.filterMap_cons, decoded, valueOf, ih']
+    | raw s => exact absurd rfl (h0 s)
+    | unserialisable => simp [List.filterMap_cons, decoded, valueOf, ih']
 
 /-- **An unserialisable message is dropped alone**: removing it from the sequence changes neither
 the bytes nor the individual sends; everything before and after it is written as without it. -/
-theorem c06_drop_isolated (sty : Style) (a b : List Outbound) :
-    sends sty (a ++ .unserialisable :: b) = sends sty (a ++ b)
-    ∧ childBytes sty (a ++ .unserialisable :: b) = childBytes sty (a ++ b) := by
-  have : sends sty (a ++ .unserialisable :: b) = sends sty (a ++ b) := by
+theorem c06_drop_isolated (st : Style) (a b : List Outbound) :
+    sends st (a ++ .unserialisable :: b) = sends st (a ++ b)
+    ∧ childBytes st (a ++ .unserialisable :: b) = childBytes st (a ++ b) := by
+  have : sends st (a ++ .unserialisable :: b) = sends st (a ++ b) := by
     simp [sends, List.filterMap_append, ser]
   exact ⟨this, by unfold childBytes; rw [this]⟩
 
 /-- later messages are still delivered: the bytes of a sequence are the bytes of its parts -/
-theorem c06_sequence_is_concatenation (sty : Style) (a b : List Outbound) :
-    childBytes sty (a ++ b) = childBytes sty a ++ childBytes sty b := by
+theorem c06_sequence_is_concatenation (st : Style) (a b : List Outbound) :
+    childBytes st (a ++ b) = childBytes st a ++ childBytes st b := by
   simp [childBytes, sends, List.filterMap_append]
 
 /-- **Closing the write stream closes the child's stdin** — after everything was written — and
 stdin is not closed while the stream is open. -/
-theorem c06_close_closes_stdin (sty : Style) (items : List Outbound) :
-    (writer sty items true).stdinClosed = true ∧ (writer sty items false).stdinClosed = false
-    ∧ (writer sty items true).bytes = childBytes sty items := by
+theorem c06_close_closes_stdin (st : Style) (items : List Outbound) :
+    (writer st items true).stdinClosed = true ∧ (writer st items false).stdinClosed = false
+    ∧ (writer st items true).bytes = childBytes st items := by
   simp [writer]
 
 /-! ## Two writers on the child's stdin
@@ -123,42 +199,43 @@ sends in any order.  The next theorems are for EVERY interleaving. -/
 interleaving `m` of the writer task's sends and the reader task's rejection sends, then the byte
 stream splits at LF into an interleaving of exactly the accepted outbound lines (in the order
 sent) and the rejection lines, nothing left over, no line with a raw break. -/
-theorem c06_two_writers_lines_intact (sty : Style) (h : GoodStyle sty) (items : List Outbound)
-    (rejs : List Json) (hg : ∀ it ∈ items, Guarded it) (m : List (List Nat))
-    (hm : Interleaving (sends sty items) (rejectionSends sty rejs) m) :
-    ∃ lines, Interleaving (items.filterMap (ser sty)) (rejs.map (enc sty)) lines
-      ∧ split LF m.flatten = (lines.map encode, [])
-      ∧ (∀ l ∈ lines, NoBreak l)
-      ∧ (items.filterMap (ser sty)).Sublist lines := by
+theorem c06_two_writers_lines_intact (st : Style) (items : List Outbound)
+    (rejs : List Json) (hg : ∀ it ∈ items, Guarded it) (hr : ∀ r ∈ rejs, wf r = true) (m : List (List Nat))
+    (hm : Interleaving (sends st items) (rejectionSends st rejs) m) :
+    ∃ lines, Interleaving (items.filterMap (ser st)) (rejs.map (enc st)) lines
+      ∧ split LF m.flatten = (lines.map (fun l => encode (codes l)), [])
+      ∧ (∀ l ∈ lines, OneLine l)
+      ∧ (items.filterMap (ser st)).Sublist lines := by
   rw [sends_eq, rejectionSends_eq] at hm
   obtain ⟨lines, hl, rfl⟩ := interleaving_map_inv _ m _ _ hm
-  have hnb : ∀ l ∈ lines, NoBreak l := by
+  have hnb : ∀ l ∈ lines, OneLine l := by
     intro l hlm
     rcases interleaving_mem hl l hlm with h1 | h1
-    · exact c06_no_raw_break sty h items hg l h1
+    · exact c06_no_raw_break st items hg l h1
     · simp only [List.mem_map] at h1
-      obtain ⟨r, _, rfl⟩ := h1
-      exact c06_encoder_no_raw_break sty h r
+      obtain ⟨r, hrm, rfl⟩ := h1
+      exact c06_encoder_no_raw_break st r (hr r hrm)
   exact ⟨lines, hl, split_lines lines (fun l hlm => (hnb l hlm).1), hnb, interleaving_sublist_left hl⟩
 
 /-- … in particular for every schedule of the executable two-writer model. -/
-theorem c06_two_writers_every_schedule (sty : Style) (h : GoodStyle sty) (items : List Outbound)
-    (rejs : List Json) (hg : ∀ it ∈ items, Guarded it) (sched : List Bool) :
-    ∃ lines, Interleaving (items.filterMap (ser sty)) (rejs.map (enc sty)) lines
-      ∧ split LF (childBytes2 sty items rejs sched) = (lines.map encode, [])
-      ∧ (items.filterMap (ser sty)).Sublist lines := by
-  obtain ⟨lines, h1, h2, _, h4⟩ := c06_two_writers_lines_intact sty h items rejs hg _
-    (mergeAll_interleaving sched (sends sty items) (rejectionSends sty rejs))
+theorem c06_two_writers_every_schedule (st : Style) (items : List Outbound)
+    (rejs : List Json) (hg : ∀ it ∈ items, Guarded it) (hr : ∀ r ∈ rejs, wf r = true) (sched : List Bool) :
+    ∃ lines, Interleaving (items.filterMap (ser st)) (rejs.map (enc st)) lines
+      ∧ split LF (childBytes2 st items rejs sched) = (lines.map (fun l => encode (codes l)), [])
+      ∧ (items.filterMap (ser st)).Sublist lines := by
+  obtain ⟨lines, h1, h2, _, h4⟩ := c06_two_writers_lines_intact st items rejs hg hr _
+    (mergeAll_interleaving sched (sends st items) (rejectionSends st rejs))
   exact ⟨lines, h1, h2, h4⟩
 
 /-- **Every line the child receives is one complete outbound message or one complete rejection
-error** — never a fragment, never two glued together. -/
-theorem c06_each_line_message_or_rejection (sty : Style) (h : GoodStyle sty) (items : List Outbound)
-    (rejs : List Json) (hg : ∀ it ∈ items, Guarded it) (m : List (List Nat))
-    (hm : Interleaving (sends sty items) (rejectionSends sty rejs) m) :
+error** — never a fragment, never two glued together — and decodes accordingly. -/
+theorem c06_each_line_message_or_rejection (st : Style) (items : List Outbound)
+    (rejs : List Json) (hg : ∀ it ∈ items, Guarded it) (hr : ∀ r ∈ rejs, wf r = true) (m : List (List Nat))
+    (hm : Interleaving (sends st items) (rejectionSends st rejs) m) :
     ∀ b ∈ (split LF m.flatten).1,
-      (∃ l ∈ items.filterMap (ser sty), b = encode l) ∨ (∃ r ∈ rejs, b = encode (enc sty r)) := by
-  obtain ⟨lines, hl, hs, _, _⟩ := c06_two_writers_lines_intact sty h items rejs hg m hm
+      (∃ l ∈ items.filterMap (ser st), b = encode (codes l))
+      ∨ (∃ r ∈ rejs, b = encode (codes (enc st r)) ∧ decLine b = some r) := by
+  obtain ⟨lines, hl, hs, _, _⟩ := c06_two_writers_lines_intact st items rejs hg hr m hm
   intro b hb
   rw [hs] at hb
   simp only [List.mem_map] at hb
@@ -166,15 +243,15 @@ theorem c06_each_line_message_or_rejection (sty : Style) (h : GoodStyle sty) (it
   rcases interleaving_mem hl l hlm with h1 | h1
   · exact Or.inl ⟨l, h1, rfl⟩
   · simp only [List.mem_map] at h1
-    obtain ⟨r, hr, rfl⟩ := h1
-    exact Or.inr ⟨r, hr, rfl⟩
+    obtain ⟨r, hrm, rfl⟩ := h1
+    exact Or.inr ⟨r, hrm, rfl, by rw [decLine_codes, Verif.Model.Json.dec_enc st r (hr r hrm)]⟩
 
 /-- the number of lines is the number of accepted messages plus the number of rejections -/
-theorem c06_two_writers_line_count (sty : Style) (h : GoodStyle sty) (items : List Outbound)
-    (rejs : List Json) (hg : ∀ it ∈ items, Guarded it) (m : List (List Nat))
-    (hm : Interleaving (sends sty items) (rejectionSends sty rejs) m) :
-    (split LF m.flatten).1.length = (items.filterMap (ser sty)).length + rejs.length := by
-  obtain ⟨lines, hl, hs, _, _⟩ := c06_two_writers_lines_intact sty h items rejs hg m hm
+theorem c06_two_writers_line_count (st : Style) (items : List Outbound)
+    (rejs : List Json) (hg : ∀ it ∈ items, Guarded it) (hr : ∀ r ∈ rejs, wf r = true) (m : List (List Nat))
+    (hm : Interleaving (sends st items) (rejectionSends st rejs) m) :
+    (split LF m.flatten).1.length = (items.filterMap (ser st)).length + rejs.length := by
+  obtain ⟨lines, hl, hs, _, _⟩ := c06_two_writers_lines_intact st items rejs hg hr m hm
   rw [hs]; simp [interleaving_length hl]
 
 /-! Why "one `send()` per line" is what the theorem rests on: a writer that hands the line `[1,2]`
@@ -185,33 +262,46 @@ the correspondence run's slow-stdin cases look for.) -/
 example : split LF ([[91, 49, 44], [123, 125, 10], [50, 93, 10]] : List (List Nat)).flatten
     = ([[91, 49, 44, 123, 125], [50, 93]], []) := by decide
 
-example : sends Style.compact [.value (.arr [.int 1, .int 2])] = [[91, 49, 44, 50, 93, 10]]
-    ∧ rejectionSends Style.compact [.obj []] = [[123, 125, 10]]
-    ∧ childBytes2 Style.compact [.value (.arr [.int 1, .int 2]), .raw [120]] [.obj []] [true, false]
-        = [91, 49, 44, 50, 93, 10, 123, 125, 10, 120, 10] := by
-  simp [sends, rejectionSends, childBytes2, mergeAll, ser, enc, encList, encKvs, intText, natDigits, encode,
-    encodeChar, Style.compact, LF]
+/-! ## Non-vacuity: a dict whose string holds LF, CR, U+2028, NUL, a quote and U+1F600, a typed
+request with `params` absent and one with a nested null, an unserialisable object, a pre-serialised
+line -/
 
-/-! ## Non-vacuity: a dict whose string holds LF, CR, U+2028, NUL, a quote and U+1F600, then an
-unserialisable object, then a pre-serialised line -/
+theorem natDigits_small (n : Nat) (h : n < 10) : natDigits n = [digitChar n] := by
+  rw [natDigits]; simp [h]
 
 def exItems : List Outbound :=
-  [.value (.obj [([109], .str [10, 13, 8232, 0, 34, 128512]), ([110], .arr [.int (-12), .null, .bool true])]),
+  [.value (.obj [(['m'], .str ['\n', '\r', '\u2028', '\x00', '"', '😀']), (['n'], .arr [.int 5, .null, .bool true])]),
+   .typed (.request (.int 7) ['p', 'i', 'n', 'g'] none),
    .unserialisable,
-   .raw [123, 125]]
+   .typed (.notification ['n'] (some [(['a'], .null)])),
+   .raw ['{', '}']]
 
 example : ∀ it ∈ exItems, Guarded it := by
   intro it h
   simp only [exItems, List.mem_cons, List.mem_nil_iff, or_false] at h
-  rcases h with rfl | rfl | rfl <;> simp [Guarded, NoBreak, LF, CR]
+  rcases h with rfl | rfl | rfl | rfl | rfl <;> simp [Guarded, OneLine, wf, wfKvs, wfList, wfMsg, wfObj]
 
-example : exItems.filterMap (ser Style.compact)
-    = ["{\"m\":\"\\n\\r\u2028\\u0000\\\"😀\",\"n\":[-12,null,true]}".toList.map Char.toNat, [123, 125]] := by
-  simp [exItems, ser, List.filterMap, enc, encKvs, encList, encStr, escChar, u4, hex, intText, natDigits, Style.compact]
+example : exItems.filterMap (ser orjsonStyle)
+    = List.map String.toList ["{\"m\":\"\\n\\r\u2028\\u0000\\\"😀\",\"n\":[5,null,true]}",
+       "{\"jsonrpc\":\"2.0\",\"id\":7,\"method\":\"ping\"}",
+       "{\"jsonrpc\":\"2.0\",\"method\":\"n\",\"params\":{\"a\":null}}", "{}"] := by
+  simp [exItems, ser, List.filterMap, enc, encKvs, encList, encStr, escChar, u4, hexDigit, intTok, natDigits_small, digitChar, sep, emit,
+    optParams, Id.toJson, kJsonrpc, kId, kMethod, kParams, v20, orjsonStyle]
+  try decide
 
-example : exItems.filterMap (ser Style.std)
-    = ["{\"m\": \"\\n\\r\\u2028\\u0000\\\"\\ud83d\\ude00\", \"n\": [-12, null, true]}".toList.map Char.toNat,
-       [123, 125]] := by
-  simp [exItems, ser, List.filterMap, enc, encKvs, encList, encStr, escChar, u4, hex, intText, natDigits, Style.std]
+example : exItems.filterMap (ser stdStyle)
+    = List.map String.toList ["{\"m\": \"\\n\\r\\u2028\\u0000\\\"\\ud83d\\ude00\", \"n\": [5, null, true]}",
+       "{\"jsonrpc\": \"2.0\", \"id\": 7, \"method\": \"ping\"}",
+       "{\"jsonrpc\": \"2.0\", \"method\": \"n\", \"params\": {\"a\": null}}", "{}"] := by
+  simp [exItems, ser, List.filterMap, enc, encKvs, encList, encStr, escChar, u4, hexDigit, intTok, natDigits_small, digitChar, sep, emit,
+    optParams, Id.toJson, kJsonrpc, kId, kMethod, kParams, v20, stdStyle]
+  try decide
+
+example : exItems.filterMap decoded
+    = [some (.obj [(['m'], .str ['\n', '\r', '\u2028', '\x00', '"', '😀']), (['n'], .arr [.int 5, .null, .bool true])]),
+       some (emit (.request (.int 7) ['p', 'i', 'n', 'g'] none)),
+       some (emit (.notification ['n'] (some [(['a'], .null)]))), some (.obj [])] := by
+  simp [exItems, decoded, List.filterMap]
+  rfl
 
 end Verif.Props.C06
